@@ -14,6 +14,7 @@ from .absctx import explore
 from .absint import AbsRaise
 from .absint import Interp
 from .absval import *  # noqa: F403
+from .model import AnalysisError
 from .model import Model
 
 EXAMPLE = {
@@ -149,3 +150,29 @@ def describe(v: Any) -> Any:
     if isinstance(v, Term):
         return f"{v.op}{tuple(describe(a) for a in v.args)!r}"
     return repr(v)
+
+
+def real_env(it: Interp, model: Model, nondet: Any = None) -> Inst:
+    """An environment built by interpreting JSONPathEnvironment.__init__ (registry, parser tables)."""
+    ci = model.cls("environment.JSONPathEnvironment")
+    env = it.instantiate(ci, [], {}, None)
+    return env
+
+
+def make_token(it: Interp, model: Model, type_name: str, value: Any = None, label: str = "tok", query: Any = None) -> Inst:
+    tci = model.cls("tokens.Token")
+    tt = model.cls("tokens.TokenType")
+    if type_name not in tt.attrs:
+        raise AnalysisError(f"anchor vanished: TokenType.{type_name}")
+    t = it.new_inst(tci, label)
+    t.attrs["type_"] = EnumV(tt, type_name)
+    t.attrs["value"] = value if value is not None else it.new_str(f"{label}.value")
+    t.attrs["index"] = it.new_int(f"{label}.index", 0)
+    t.attrs["query"] = query if query is not None else it.new_str("query")
+    t.attrs["message"] = Const(None)
+    return t
+
+
+def make_stream(it: Interp, model: Model, tokens: List[Any]) -> Inst:
+    sci = model.cls("tokens.TokenStream")
+    return it.instantiate(sci, [it.new_list(tokens)], {}, None)
